@@ -58,11 +58,32 @@ GROUPS = {
                  ('load_ref', []), ('preload_maybe_ref', []), ('load_maybe_ref', []), ('preload_ref', [NAT]),
                  ('preload_string', [NAT]), ('load_string', [NAT]), ('load_address', []), ('preload_address', []),
                  ('load_dict', [NAT, ANY, ANY]), ('preload_dict', [NAT, ANY, ANY])]),
+    # the snake strings (loops with loop-carried cells; `while True` with a declared iteration bound).  Here a `Cell` built by
+    # `end_cell` is used as a REFERENCE (`store_ref(tail)`): `mk : Bits → List R → Option R`; `<ref>.begin_parse()` reads `view <ref>`.
+    # Definitions that do not involve the cell constructor are the ones of BuilderOps / SliceOps (not emitted again).
+    'SnakeOps': dict(
+        main='Builder', files=[BUILDER, SLICE_SRC, BITARR, ADDRESS_SRC, 'pytoniq_core/boc/cell.py'], ns='TonVerif.Generated.SnakeOps', cell_as_ref=True,
+        reuse=['BuilderOps', 'SliceOps'],
+        entries=[('store_snake_bytes', [BYTES]), ('store_snake_string', [STR, BOOL]),
+                 ('Slice', 'load_snake_bytes', []), ('Slice', 'load_snake_string', [])]),
 }
+
+
+def _entries(g):
+    """[(class, method, argument types)]"""
+    return [((g['main'],) + tuple(e)) if len(e) == 2 else tuple(e) for e in g['entries']]
 
 
 def head(group):
     g = GROUPS[group]
+    if g.get('reuse'):
+        return ['/- GENERATED by harness/translate/bsops.py (pymeth.py) from the current source of',
+                f'   {", ".join(g["files"])}; do not edit.',
+                '   Shape of a method: see Generated/BuilderOps.lean.  `mk` = `Cell(bits, refs, type_)` as `end_cell` calls it, its result used as a',
+                '   reference; `view c` = what `c.begin_parse()` reads of a referenced cell; `fuel` = the declared bound on the iterations of',
+                '   `while True:` (exhausted = raise).  Methods that do not build cells are the definitions of BuilderOps / SliceOps. -/',
+                'import TonVerif.Generated.BuilderOps', 'import TonVerif.Generated.SliceOps',
+                'set_option linter.unusedVariables false', f'namespace {g["ns"]}', 'open TonVerif TonVerif.Model', 'variable {R : Type}', '']
     return ['/- GENERATED by harness/translate/bsops.py (pymeth.py) from the current source of',
             f'   {", ".join(g["files"])}; do not edit.',
             '   A method is  args → self → (self after the call, returned value);  `none` = the Python code raised (the state is the one',
@@ -172,17 +193,46 @@ def program(group):
             raise Untranslatable(f'{name} is not imported from .address in {BUILDER}')
     g = GROUPS[group]
     sigs = dict(SIGS)
-    for name, argtypes in g['entries']:
-        sigs[(g['main'], name)] = argtypes
-    return SProgram(classes, main=g['main'], poly=POLY, externs={'int2ba': True, 'ba2int': True, 'str=utf8': True, 'unions': UNIONS, 'copy=value': True, 'ref_functions': {'HashMap': 'parse'}, 'mk': 'Bits → List R → Option (Py.CellV R)'}, src=g['files'][0], sigs=sigs)
+    externs = {'int2ba': True, 'ba2int': True, 'str=utf8': True, 'unions': UNIONS, 'copy=value': True, 'ref_functions': {'HashMap': 'parse'},
+               'mk': 'Bits → List R → Option (Py.CellV R)'}
+    reuse = None
+    if g.get('cell_as_ref'):
+        # a cell built by `end_cell` is only used as a reference; `<ref>.begin_parse()` = Slice(view.bits, view.refs), ref_offset 0
+        classes['Cell'] = dict(classes['Cell'], ctor=dict(classes['Cell']['ctor'], type=REF))
+        externs.update({'mk': 'Bits → List R → Option R', 'view': 'R → Py.CellV R',
+                        'ref_methods': {'begin_parse': dict(cls='Slice', lean='({{ bits := (view {0}).bits, refs := (view {0}).refs, ref_offset := 0 }} : Py.SliceSt R)')}})
+        cb = _class(_tree('pytoniq_core/boc/cell.py'), 'Cell', 'pytoniq_core/boc/cell.py')
+        bp = [n for n in cb.body if isinstance(n, ast.FunctionDef) and n.name == 'begin_parse']
+        if len(bp) != 1 or [ast.unparse(x) for x in bp[0].body if not (isinstance(x, ast.Expr) and isinstance(x.value, ast.Constant))][-1:] != ['return Slice(self.bits.copy(), self.refs.copy(), self.type_)']:
+            raise Untranslatable('Cell.begin_parse is not `return Slice(self.bits.copy(), self.refs.copy(), self.type_)`')
+        sigs[('Builder', 'store_ref')] = [REF]
+    if g.get('reuse'):
+        others = []
+        for og in g['reuse']:
+            op = program(og)
+            for cls, name, argtypes in _entries(GROUPS[og]):
+                op.method(cls, name, argtypes)
+                if (cls, name) not in POLY:
+                    sigs.setdefault((cls, name), argtypes)
+            others.append((GROUPS[og]['ns'], op))
+
+        def reuse(owner, name, argtypes):
+            for ns, op in others:
+                info = op.done.get((owner, name, tuple(argtypes)))
+                if info is not None and not info.get('mk') and 'Cell' not in str(argtypes) + str(info['ret']):
+                    return dict(info, lean=f'{ns}.{info["lean"]}', text=None)
+            return None
+    for cls, name, argtypes in _entries(g):
+        sigs[(cls, name)] = argtypes
+    return SProgram(classes, main=g['main'], poly=POLY, externs=externs, src=g['files'][0], sigs=sigs, reuse=reuse)
 
 
 def translate_all(group):
     """-> {lean definition name: text}; raises Untranslatable"""
     prog = program(group)
     g = GROUPS[group]
-    for name, argtypes in g['entries']:
-        prog.method(g['main'], name, argtypes)
+    for cls, name, argtypes in _entries(g):
+        prog.method(cls, name, argtypes)
     return dict(prog.defs)
 
 
@@ -389,6 +439,10 @@ def py_builder(cells, fb, fr, toks):
                 b.store_dict(None if p[1] == '-' else cells[int(p[1])])
             elif k == 'cell':
                 b.store_cell(cells[int(p[1])])
+            elif k == 'sn':
+                b.store_snake_bytes(bytes.fromhex(p[1].replace('-', '')))
+            elif k == 'sns':
+                b.store_snake_string(bytes.fromhex(p[1].replace('-', '')).decode(), p[2] == '1')
             elif k == 'sl':
                 from pytoniq_core.boc.slice import Slice
                 from pytoniq_core.boc.tvm_bitarray import TvmBitarray
@@ -455,6 +509,10 @@ def py_slice(cells, bits, refs, toks):
                 r = 'none' if x is None else s.refs[ro].hash.hex()
             elif k in ('lc', 'pc'):
                 r = str(int((s.load_coins if k == 'lc' else s.preload_coins)()))
+            elif k == 'lsn':
+                r = s.load_snake_bytes().hex() or '-'
+            elif k == 'lss':
+                r = s.load_snake_string().encode().hex() or '-'
             else:
                 raise KeyError(tok)
         except KeyError:
@@ -515,10 +573,10 @@ def gop (ctx : Array (Option RCell)) (tok : String) : Option (GB × GB) :=
 def showB (r : Builder RCell × Option Unit) : String := s!"{if r.2.isSome then "1" else "0"}/{showBits r.1.bits}/{showRefs r.1.refs}"
 /-- `<fill bits>,<fill refs>,<tok;tok;...>`; mode val: the regenerated methods run as a history -> flags|bits|refs;
     mode diff: per op "same" / "DIFF": regenerated method vs hand model on the state reached by the hand model -/
-def runB (ctx : Array (Option RCell)) (mode : String) (w : String) : String :=
+def runBWith (gp : Array (Option RCell) → String → Option (GB × GB)) (ctx : Array (Option RCell)) (mode : String) (w : String) : String :=
   match w.splitOn "," with
   | [fb, fr, ops] =>
-    match fb.toNat?, fr.toNat?, (ctx[0]?).join, (if ops == "-" then some [] else (ops.splitOn ";").mapM (gop ctx)) with
+    match fb.toNat?, fr.toNat?, (ctx[0]?).join, (if ops == "-" then some [] else (ops.splitOn ";").mapM (gp ctx)) with
     | some fb, some fr, some c0, some fs =>
       let b0 : Builder RCell := ⟨List.replicate fb false, List.replicate fr c0⟩
       if mode == "val" then
@@ -582,10 +640,10 @@ def gsop (tok : String) : Option (GS × (Slice RCell → Slice RCell × String))
   | ["pc"] => some (fun s => fin showN (Generated.SliceOps.preload_coins s), fun s => fin showI (SOp.preloadCoins s))
   | _ => none
 /-- `<bits>,<ref indices . separated | ->,<tok;tok;...>` -/
-def runS (ctx : Array (Option RCell)) (mode : String) (w : String) : String :=
+def runSWith (gp : String → Option (GS × (Slice RCell → Slice RCell × String))) (ctx : Array (Option RCell)) (mode : String) (w : String) : String :=
   match w.splitOn "," with
   | [bits, refs, ops] =>
-    match parseBits bits, parseNatList refs, (if ops == "-" then some [] else (ops.splitOn ";").mapM gsop) with
+    match parseBits bits, parseNatList refs, (if ops == "-" then some [] else (ops.splitOn ";").mapM gp) with
     | some bits, some ris, some fs =>
       match ris.mapM (fun i => (ctx[i]?).join) with
       | none => "bad"
@@ -605,8 +663,72 @@ def runS (ctx : Array (Option RCell)) (mode : String) (w : String) : String :=
           ";".intercalate out
     | _, _, _ => "bad"
   | _ => "bad"
+def runB := runBWith gop
+def runS := runSWith gsop
 end BsEval
 """
+
+# the snake methods (Generated/SnakeOps.lean): the same evaluators with the tokens sn / sns / lsn / lss added
+LEAN_EVAL_SNAKE = """namespace BsEval
+def viewV (c : RCell) : Py.CellV RCell := ⟨c.bits, c.refs⟩
+def gopSn (ctx : Array (Option RCell)) (tok : String) : Option (GB × GB) :=
+  match tok.splitOn ":" with
+  | ["sn", h] => do let h ← hexArg h; pure (Generated.SnakeOps.store_snake_bytes mkCell h, fun b => flagOf (BOp.storeSnake mkCell h b))
+  | ["sns", h, p] => do
+      let h ← hexArg h
+      pure (Generated.SnakeOps.store_snake_string mkCell h (p == "1"), fun b => flagOf (BOp.storeSnakeString mkCell h (p == "1") b))
+  | _ => gop ctx tok
+def gsopSn (tok : String) : Option (GS × (Slice RCell → Slice RCell × String)) :=
+  let fin {σ α : Type} (f : α → String) (r : σ × Option α) : σ × String := (r.1, match r.2 with | some a => f a | none => "x")
+  match tok.splitOn ":" with
+  | ["lsn"] => some (fun s => fin dashHex (Generated.SnakeOps.Slice_load_snake_bytes viewV 3000 s),
+                     fun s => fin dashHex (SOp.loadSnakeFuel (fun c => (c.bits, c.refs)) 3000 s))
+  | ["lss"] => some (fun s => fin dashHex (Generated.SnakeOps.Slice_load_snake_string viewV 3000 s),
+                     fun s => fin dashHex (SOp.loadSnakeStringFuel (fun c => (c.bits, c.refs)) 3000 s))
+  | _ => gsop tok
+def runBSn := runBWith gopSn
+def runSSn := runSWith gsopSn
+end BsEval
+"""
+
+SNAKE_DAG = [(-1, '0110000101100010' * 5, ()), (-1, '01100011' * 127, (0,)), (-1, '01100100' * 127, (1,)), (-1, '101', ()),
+             (-1, '01100101', (3,)), (-1, '0110011001100111', (0, 0)), (-1, '', ()), (-1, '', (6,)), (-1, '01101000' * 3, (7,))]
+
+
+def snake_builder_scripts():
+    """[(prefill bits, prefill refs, [tokens])] for store_snake_bytes / store_snake_string: chunk boundaries x fill levels x free refs"""
+    out = []
+    for fb in (0, 8, 3, 1000, 1015, 1016, 1023):
+        for fr in (0, 3, 4):
+            for n in (0, 1, 2, 126, 127, 128, 254, 255, 300):
+                if (fb, fr) != (0, 0) and n in (2, 254):
+                    continue
+                data = bytes((i * 7 + n) % 251 for i in range(n)).hex() or '-'
+                out.append((fb, fr, [f'sn:{data}']))
+    for fb, fr in ((0, 0), (8, 1), (1016, 0), (1016, 4)):
+        for n in (0, 1, 126, 127, 128, 260):
+            data = bytes(97 + (i % 26) for i in range(n)).hex() or '-'
+            out.append((fb, fr, [f'sns:{data}:0', 'bit:1']))
+            out.append((fb, fr, [f'sns:{data}:1']))
+    out.append((0, 0, ['sn:' + '61' * 130, 'sn:' + '62' * 3, 'sn:' + '63' * 200, 'sn:-', 'sn:' + '64' * 128, 'sn:' + '65' * 128]))
+    return out
+
+
+def snake_slice_scripts():
+    """[(bits, refs (indices into SNAKE_DAG), [tokens])]: chains, a non-aligned cell in the chain / at the top, two references, consumed
+    references (`ref_offset`), empty cells; after the read the remaining bits / references of `self` are compared as well"""
+    out = []
+    for i, (_, bits, refs) in enumerate(SNAKE_DAG):
+        out.append((bits, refs, ['lsn', 'pbit']))
+        out.append((bits, refs, ['lss']))
+        out.append((bits + '1', refs, ['lsn']))
+        out.append((bits, (i,) + tuple(refs), ['lr', 'lsn', 'lr']))       # a consumed reference in front
+        out.append((bits, tuple(refs) + (2,), ['lsn']))
+        out.append(('01111010' + bits, refs, ['lu:8', 'lsn', 'lsn']))
+    out.append(('', (2,), ['lsn']))
+    out.append(('', (8, 2), ['lr', 'lss']))
+    out.append(('', (2, 8), ['lr', 'lr', 'lsn']))
+    return out
 
 
 def dag_word(nodes):
@@ -621,17 +743,20 @@ def s_word(bits, refs, toks):
     return f'{bits or "-"},{".".join(map(str, refs)) or "-"},{";".join(toks) or "-"}'
 
 
-def lean_eval(kind, words, mode):
+def lean_eval(kind, words, mode, snake=False):
     """kind 'B' / 'S'; words = script words -> one output line per word"""
-    fn = 'runB' if kind == 'B' else 'runS'
-    lines = [LEAN_EVAL, 'def ctxDag : String := "' + dag_word(CTX_DAG) + '"', 'def inputs : String := "' + ' '.join(words) + '"',
+    fn = ('runB' if kind == 'B' else 'runS') + ('Sn' if snake else '')
+    src = LEAN_EVAL
+    if snake:
+        src = LEAN_EVAL.replace('import TonVerif.Generated.SliceOps\n', 'import TonVerif.Generated.SliceOps\nimport TonVerif.Generated.SnakeOps\n') + LEAN_EVAL_SNAKE
+    lines = [src, 'def ctxDag : String := "' + dag_word(SNAKE_DAG if snake else CTX_DAG) + '"', 'def inputs : String := "' + ' '.join(words) + '"',
              'def ctxA : Array (Option RCell) := match (ctxDag.splitOn "|").mapM parseNode with | some ns => evalRDag ns | none => #[]',
              f'#eval (do for w in inputs.splitOn " " do IO.println ("VAL " ++ BsEval.{fn} ctxA "{mode}" w) : IO Unit)']
     tmp = os.path.join(LEAN, f'.srcbs_{os.getpid()}.lean')
     with open(tmp, 'w') as f:
         f.write('\n'.join(lines) + '\n')
     try:
-        _lake_build(['TonVerif.Generated.BuilderOps', 'TonVerif.Generated.SliceOps', 'TonVerif.Drv.Builder'])
+        _lake_build(['TonVerif.Generated.BuilderOps', 'TonVerif.Generated.SliceOps', 'TonVerif.Drv.Builder'] + (['TonVerif.Generated.SnakeOps'] if snake else []))
         p = subprocess.run(['lake', 'env', 'lean', tmp], cwd=LEAN, capture_output=True, text=True, timeout=900)
     finally:
         os.unlink(tmp)
@@ -646,7 +771,14 @@ def validate(group):
     gives on the same scripts (per op returned / raised, the value, the state afterwards).  -> (None | reason, number of scripts)"""
     cells = _lib_cells()
     try:
-        if group == 'BuilderOps':
+        if group == 'SnakeOps':
+            from ..gen import cells as G
+            sc = G.lib_build(SNAKE_DAG)
+            sb, ss = snake_builder_scripts(), snake_slice_scripts()
+            scripts = sb + ss
+            got = lean_eval('B', [b_word(*x) for x in sb], 'val', snake=True) + lean_eval('S', [s_word(*x) for x in ss], 'val', snake=True)
+            want = [py_builder(sc, *x) for x in sb] + [py_slice(sc, *x) for x in ss]
+        elif group == 'BuilderOps':
             scripts = builder_scripts()
             got = lean_eval('B', [b_word(*x) for x in scripts], 'val')
             want = [py_builder(cells, *x) for x in scripts]
@@ -662,14 +794,14 @@ def validate(group):
     return None, len(scripts)
 
 
-def diff_scripts(ctx, kind, scripts):
+def diff_scripts(ctx, kind, scripts, snake=False):
     """For harness search mode: scripts (as builder_scripts() / slice_scripts()) -> [(script, [indices of differing ops])] where the
     regenerated method and the hand model differ (evaluated by Lean; needs only the Generated files and the driver modules, not the
     proofs).  Never raises."""
     if not scripts:
         return []
     try:
-        got = lean_eval(kind, [(b_word if kind == 'B' else s_word)(*x) for x in scripts], 'diff')
+        got = lean_eval(kind, [(b_word if kind == 'B' else s_word)(*x) for x in scripts], 'diff', snake=snake)
     except Exception as e:
         ctx.notes.append(f'source-diff search ({kind}) failed: {type(e).__name__}: {e}')
         return []
